@@ -20,6 +20,10 @@ package raft
 //@ pure MajorityPre(l *leader) bool = ReplsCover(l) && KeyIsID(l.configs.Latest) && LeaderCache(l) && NumVoters(l.configs.Latest) >= 1 && MatchBound(l)
 //@ pure QuorumHas(l *leader, v uint64) bool = cntge(col(l.configs.Latest.Nodes, Voter), MatchOf(l), keys(l.configs.Latest.Nodes), v) >= NumVoters(l.configs.Latest)/2 + 1
 
+//@ ghost var sortgen int
+//@ ghost func gperm(int, int) int
+//@ ghost func ginv(int, int) int
+//@ pure SIn(s decrUint64Slice, p int) bool = base(s) <= p && p < base(s) + len(s)
 // sort.Sort on a decrUint64Slice (T-std): a permutation (counts of elements >= v are unchanged
 // for every v), sorted in decreasing order (at least j+1 elements are >= the element at position j).
 //@ func sort.Sort params(data)
@@ -28,9 +32,17 @@ package raft
 //@   modifies contents(as(data, decrUint64Slice))
 //@   ensures forall(v, scge(as(data, decrUint64Slice), len(as(data, decrUint64Slice)), v) == old(scge(as(data, decrUint64Slice), len(as(data, decrUint64Slice)), v)))
 //@   ensures forall(p, base(as(data, decrUint64Slice)) <= p && p < base(as(data, decrUint64Slice)) + len(as(data, decrUint64Slice)) ==> scge(as(data, decrUint64Slice), len(as(data, decrUint64Slice)), raw(as(data, decrUint64Slice), p)) >= p - base(as(data, decrUint64Slice)) + 1)
+// the same facts in elementary form: sorted, and a permutation given by the ghost bijection
+// gperm(g, .) / ginv(g, .) of the positions, g being the number of sorts done before
+//@   modifies sortgen
+//@   ensures sortgen == old(sortgen) + 1
+//@   ensures forall(p, q, SIn(as(data, decrUint64Slice), p) && SIn(as(data, decrUint64Slice), q) && p <= q ==> raw(as(data, decrUint64Slice), p) >= raw(as(data, decrUint64Slice), q))
+//@   ensures forall(p, SIn(as(data, decrUint64Slice), p) ==> SIn(as(data, decrUint64Slice), gperm(old(sortgen), p)) && raw(as(data, decrUint64Slice), p) == old(raw(as(data, decrUint64Slice), gperm(sortgen, p))) && ginv(old(sortgen), gperm(old(sortgen), p)) == p)
+//@   ensures forall(p, SIn(as(data, decrUint64Slice), p) ==> SIn(as(data, decrUint64Slice), ginv(old(sortgen), p)) && gperm(old(sortgen), ginv(old(sortgen), p)) == p && raw(as(data, decrUint64Slice), ginv(old(sortgen), p)) == old(raw(as(data, decrUint64Slice), p)))
 
 //@ func (*leader).majorityMatchIndex
 //@   requires l.Raft != nil && l.storage != nil && MajorityPre(l)
+//@   modifies sortgen
 //@   props C06 C11
 //@   ensures [C02.majority] QuorumHas(l, result0)
 //@   ensures [C02.majority-bound] result0 <= l.lastLogIndex
